@@ -19,9 +19,14 @@ FREQ = np.array([0.05, 0.07, 0.1, 0.125, 0.18, 0.25])
 ND = 8
 
 
+def kind_nd(kind):
+    return int(kind.split("-nd")[1]) if "-nd" in kind else ND
+
+
 def base_data(kind, seed):
-    """float32-exact, pairwise distinct positive values, multi-modal. kind '4d': (time=2,site=2,freq=6,dir=8); '2d': (freq,dir)."""
-    nf, nd = len(FREQ), ND
+    """float32-exact, pairwise distinct positive values, multi-modal. kind '4d': (time=2,site=2,freq=6,dir=8); '2d': (freq,dir);
+    '2d-nd<k>': (freq, dir) with k directions."""
+    nf, nd = len(FREQ), kind_nd(kind)
     bs = []
     specs = [((1, 2), 48.0, (4, 6), 20.0), ((2, 7), 36.0, (4, 3), 26.0), ((1, 0), 30.0, (3, 4), 44.0), ((2, 5), 52.0, (4, 1), 12.0)]
     n = 4 if kind == "4d" else 1
@@ -30,8 +35,8 @@ def base_data(kind, seed):
         v = np.zeros((nf, nd))
         for i in range(nf):
             for j in range(nd):
-                dj1 = min((j - j1) % nd, (j1 - j) % nd)
-                dj2 = min((j - j2) % nd, (j2 - j) % nd)
+                dj1 = min((j - j1 % nd) % nd, (j1 % nd - j) % nd)
+                dj2 = min((j - j2 % nd) % nd, (j2 % nd - j) % nd)
                 a = h1 / (1 + (i - i1) ** 2 + dj1 ** 2) + h2 / (1 + (i - i2) ** 2 + dj2 ** 2)
                 v[i, j] = a
         # make values distinct and exactly representable in float32 (multiples of 1/64 with a unique small offset)
@@ -47,10 +52,11 @@ def make(kind, seed, tr):
     import xarray as xr
 
     data = base_data(kind, seed)
-    dirs = (np.arange(ND) * 45.0) + [0.0, 5.0, 10.0][seed % 3]
+    ND_ = kind_nd(kind)
+    dirs = (np.arange(ND_) * (360.0 / ND_)) + [0.0, 5.0, 10.0][seed % 3]
     dims = ["time", "site", "freq", "dir"] if kind == "4d" else ["freq", "dir"]
     # stored direction sequence
-    idx = np.arange(ND)
+    idx = np.arange(ND_)
     if tr.get("desc"):
         idx = idx[::-1]
     idx = np.roll(idx, tr.get("rot", 0))
@@ -209,6 +215,8 @@ def tr_pred(kind, tr):
         p.append("dirs:descending" + ("+rotated" if tr.get("rot") else ""))
     elif tr.get("rot"):
         p.append("dirs:seam-between-first-two-stored" if tr["rot"] == 1 else "dirs:rotated")
+    if "-nd" in kind:
+        p.append("nd=%d" % kind_nd(kind))
     return ",".join(p) or "identity"
 
 
@@ -244,7 +252,7 @@ def run_item(it):
     kind, seed = it["kind"], it["seed"]
     da0, aux0, dirs = make(kind, seed, {})
     ops = operations(dirs)
-    if kind == "2d":
+    if kind.startswith("2d"):
         ops = {k: v for k, v in ops.items() if k not in ("hmax",)}
     base = {name: run_op(fn, da0, aux0) for name, (fn, k) in ops.items()}
     res = {"evals": 0, "n_nontrivial": 0, "samples": [], "outcomes": {}, "violations": [], "parts": {}}
@@ -292,6 +300,9 @@ def replay(case):
 
 
 def transformations(kind, tier):
+    if "-nd" in kind:
+        k = kind_nd(kind)
+        return [dict(perm=p, layout="C", dtype="float64", rot=r, desc=dsc) for p in ((0, 1), (1, 0)) for dsc in (False, True) for r in range(k)]
     nd = 4 if kind == "4d" else 2
     perms = list(itertools.permutations(range(nd)))
     layouts = ["C", "F", "strided", "negstride"]
@@ -339,11 +350,12 @@ def run(rep, tier, seed, parts=None):
                 "every factor value alone and every pair of factor values (dimension order x stored-direction pairs on 6 representative "
                 "orders) on a 4-D dataset and a 2-D array; thorough: full product on both. 60+ operations (all statistics, smooth, interp, rotate, split, stats with limits, scale_by_hs, "
                 "ptm1..ptm5, bbox) are applied to every transformed input and compared, after re-aligning by labels, with the result on "
-                "the canonical input. Non-trivial = non-identity transformation.")
+                "the canonical input; plus 2-D arrays with 2,3,4,5,6,12 directions x both dimension orders x every rotation x both orientations. "
+                "Non-trivial = non-identity transformation.")
     rep.assumptions = ["descending direction order is excluded for the watershed methods only, as the statement allows",
                        "input values are exactly representable in float32 and pairwise distinct, so dtype narrowing does not move decisions (peaks, basins)"]
     items = []
-    for kind in ("2d", "4d"):
+    for kind in ("2d", "4d", "2d-nd2", "2d-nd3", "2d-nd4", "2d-nd5", "2d-nd6", "2d-nd12"):
         trs = transformations(kind, tier)
         n = 24
         for i in range(0, len(trs), n):
